@@ -17,6 +17,9 @@ func configure(g *gen) {
 			{"user", "*url.Userinfo", "user", T{"opaque", "Option Nat"}},
 		}},
 		// pkg/render: the renderer values
+		{Pkg: "pkg/binding", Go: "FormBinder", Lean: "FormB", OptIn: true, Derive: "Repr, Inhabited", Fields: []FieldSpec{{"TagName", "string", "tagName", tStr}}},
+		{Pkg: "pkg/binding", Go: "QueryBinder", Lean: "QueryB", OptIn: true, Derive: "Repr, Inhabited", Fields: []FieldSpec{{"TagName", "string", "tagName", tStr}}},
+		{Pkg: "pkg/binding", Go: "HeaderBinder", Lean: "HeaderB", OptIn: true, Derive: "Repr, Inhabited", Fields: []FieldSpec{{"TagName", "string", "tagName", tStr}}},
 		{Pkg: "pkg/render", Go: "JSONRenderer", Lean: "JSONR", OptIn: true, Derive: "Repr, Inhabited", Fields: []FieldSpec{
 			{"Indent", "string", "indent", tStr},
 			{"NotEscape", "bool", "notEscape", tBool},
@@ -646,6 +649,54 @@ func configure(g *gen) {
 	}
 	// pkg/binding: the source decision of `Auto` (which binder reads what); the binders themselves and the two
 	// form parsers are operations whose only modelled effect is to be recorded as the chosen source
+	// pkg/binding: `Validate` and the three decoders (decode, then validate).  The decoders of the standard library / formam
+	// and the configured validator are parameters: `decodeErr` / `validateErr` say whether they return an error,
+	// `validator` is nil or the identity of the configured validator
+	bErr := T{"opaque", "Bool"}
+	bTypes := map[string]T{"any": {"opaque", "Unit"}, "interface{}": {"opaque", "Unit"}, "io.Reader": {"opaque", "Unit"},
+		"map[string][]string": {"opaque", "Unit"}, "url.Values": {"opaque", "Unit"}, "*formam.Decoder": {"opaque", "Unit"},
+		"*http.Request": {"opaque", "Unit"}}
+	bExts := []Ext{
+		{Callee: "Validator", Value: "validator", T: T{"opaque", "Option Nat"}},
+		{Callee: "Validator.Validate", Value: "validateErr", T: bErr},
+		{Callee: "json.NewDecoder(r).Decode", Value: "decodeErr", T: bErr},
+		{Callee: "xml.NewDecoder(r).Decode", Value: "decodeErr", T: bErr},
+		{Callee: "formam.NewDecoder", Value: "()", T: T{"opaque", "Unit"}},
+		{Callee: "formam.DecoderOptions{}", Value: "()", T: T{"opaque", "Unit"}},
+		{Callee: "dec.Decode", Value: "decodeErr", T: bErr},
+	}
+	vExtra := []string{"(validator : Option Nat)", "(validateErr : Bool)"}
+	add(FnSpec{Pkg: "pkg/binding", Func: "Validate", Lean: "bindingValidate", Extra: vExtra, Types: bTypes, Exts: bExts})
+	dExtra := append([]string{"(decodeErr : Bool)"}, vExtra...)
+	for _, n := range []string{"decodeJSON", "decodeXML", "DecodeUrlValues"} {
+		add(FnSpec{Pkg: "pkg/binding", Func: n, Lean: "binding_" + n, Extra: dExtra, Types: bTypes, Exts: bExts})
+	}
+	// the binders: each hands its source (body, parsed form, query, header map — opaque here) to its decoder
+	bsExts := append([]Ext{
+		{Callee: "_.Body", Value: "()", T: T{"opaque", "Unit"}},
+		{Callee: "_.Form", Value: "()", T: T{"opaque", "Unit"}},
+		{Callee: "_.Header", Value: "()", T: T{"opaque", "Unit"}},
+		{Callee: "_.URL.Query", Value: "()", T: T{"opaque", "Unit"}},
+		{Callee: "_.ParseForm", Value: "parseErr", T: bErr},
+		{Callee: "strings.NewReader", Value: "()", T: T{"opaque", "Unit"}},
+	}, bExts...)
+	for _, b := range [][2]string{{"JSONBinder", "JSONB"}, {"XMLBinder", "XMLB"}} {
+		for _, n := range []string{"Bind", "BindBytes"} {
+			add(FnSpec{Pkg: "pkg/binding", Recv: b[0], Func: n, Lean: b[1] + "." + n, NoRecv: true, Extra: dExtra, Types: bTypes, Exts: bsExts})
+		}
+	}
+	add(FnSpec{Pkg: "pkg/binding", Recv: "FormBinder", Func: "Bind", Lean: "FormB.Bind", UseStructs: []string{"FormBinder"},
+		Extra: append([]string{"(parseErr : Bool)"}, dExtra...), Types: bTypes, Exts: bsExts})
+	add(FnSpec{Pkg: "pkg/binding", Recv: "FormBinder", Func: "BindValues", Lean: "FormB.BindValues", UseStructs: []string{"FormBinder"}, Extra: dExtra, Types: bTypes, Exts: bsExts})
+	for _, b := range [][2]string{{"QueryBinder", "QueryB"}, {"HeaderBinder", "HeaderB"}} {
+		for _, n := range []string{"Bind", "BindValues"} {
+			add(FnSpec{Pkg: "pkg/binding", Recv: b[0], Func: n, Lean: b[1] + "." + n, UseStructs: []string{b[0]}, Extra: dExtra, Types: bTypes, Exts: bsExts})
+		}
+	}
+	for _, n := range []string{"Bind", "MustBind"} {
+		add(FnSpec{Pkg: "pkg/binding", Func: n, Lean: "binding" + n, Extra: []string{"(autoErr : Bool)"}, Types: bTypes,
+			Exts: []Ext{{Callee: "Auto", Value: "autoErr", T: bErr}}})
+	}
 	breq := T{"opaque", "GoRt.BReq"}
 	bsrc := func(name string) []string { return []string{"src := GoRt.BindSrc." + name} }
 	add(FnSpec{Pkg: "pkg/binding", Func: "Auto", Lean: "bindingAuto",
